@@ -8,8 +8,8 @@ import UmProofs.BrokerScaleCommitA
 succeeds and produces `commitRes`, described on the decomposition `chunks = A ++ dch :: B` at
 the destination chunk.
 -/
-namespace Um.Broker
-open Um Um.Slots
+namespace Um.Broker.Scale
+open Um Um.Slots Um.Broker
 
 structure CommitInv (c : Cluster) : Prop where
   pos : PosInv c
@@ -67,7 +67,7 @@ variable {c : Cluster}
 
 /-- the `(ranges, epoch)` keys of importing entries are distinct, too -/
 theorem TwinInv.importing_nodup (h : TwinInv c) :
-    (c.importing.map fun m => (m.ranges, m.mm.epoch)).Nodup := by
+    ((Cluster.importing c).map fun m => (m.ranges, m.mm.epoch)).Nodup := by
   have h1 := (h.1.map (fun p : RangeList × MigMeta => (p.1, p.2.epoch)))
   simp only [List.map_map] at h1
   exact (List.Perm.nodup_iff h1).mp h.2
@@ -91,7 +91,7 @@ theorem TwinInv.pending_unique (h : TwinInv c) {m e : MigStore} (hm : m ∈ c.mi
 theorem TwinInv.importing_unique (h : TwinInv c) {t e : MigStore} (ht : t ∈ c.migs) (htm : t.isMigrating = false)
     (he : e ∈ c.migs) (hem : e.isMigrating = false) (hr : e.ranges = t.ranges) (hep : e.mm.epoch = t.mm.epoch) :
     e = t :=
-  nodup_map_inj h.importing_nodup (List.mem_filter.mpr ⟨he, by simp [hem]⟩)
+  nodup_map_inj (TwinInv.importing_nodup h) (List.mem_filter.mpr ⟨he, by simp [hem]⟩)
     (List.mem_filter.mpr ⟨ht, by simp [htm]⟩) (by simp [hr, hep])
 
 end twins
@@ -118,14 +118,14 @@ theorem findEntry_pending {c : Cluster} (hinv : CommitInv c) {m : MigStore} (hm 
     rcases hp with ⟨rfl, e, he, hhit⟩ | ⟨rfl, e, he, hhit⟩
     · obtain ⟨h1, h2, h3⟩ := entryHit_iff.mp hhit
       have hem : e ∈ c.migs := Cluster.migs_of_getElem? hget (Or.inl he)
-      have : e = m := hinv.twin.pending_unique hm hmig hem h3 h1 h2
+      have : e = m := TwinInv.pending_unique hinv.twin hm hmig hem h3 h1 h2
       subst this
       have := hpos.1 e he
       simp only [h3, if_true, Prod.mk.injEq] at this
       simp [this.1, this.2]
     · obtain ⟨h1, h2, h3⟩ := entryHit_iff.mp hhit
       have hem : e ∈ c.migs := Cluster.migs_of_getElem? hget (Or.inr he)
-      have : e = m := hinv.twin.pending_unique hm hmig hem h3 h1 h2
+      have : e = m := TwinInv.pending_unique hinv.twin hm hmig hem h3 h1 h2
       subst this
       have := hpos.2.1 e he
       simp only [h3, if_true, Prod.mk.injEq] at this
@@ -135,7 +135,7 @@ theorem findEntry_pending {c : Cluster} (hinv : CommitInv c) {m : MigStore} (hm 
 theorem findEntry_importing {c : Cluster} (hinv : CommitInv c) {m : MigStore} (hm : m ∈ c.migs)
     (hmig : m.isMigrating = true) :
     findEntry c.chunks m.ranges m.mm.epoch false = some (m.mm.dstChunk, m.mm.dstPart) := by
-  obtain ⟨t, ht, htm, htr, htmm⟩ := hinv.twin.exists_twin hm hmig
+  obtain ⟨t, ht, htm, htr, htmm⟩ := TwinInv.exists_twin hinv.twin hm hmig
   unfold findEntry
   cases hfe : findEntry.go m.ranges m.mm.epoch false c.chunks 0 with
   | none =>
@@ -155,14 +155,14 @@ theorem findEntry_importing {c : Cluster} (hinv : CommitInv c) {m : MigStore} (h
     rcases hp with ⟨rfl, e, he, hhit⟩ | ⟨rfl, e, he, hhit⟩
     · obtain ⟨h1, h2, h3⟩ := entryHit_iff.mp hhit
       have hem : e ∈ c.migs := Cluster.migs_of_getElem? hget (Or.inl he)
-      have : e = t := hinv.twin.importing_unique ht htm hem h3 (h1.trans htr.symm) (h2.trans (by rw [htmm]))
+      have : e = t := TwinInv.importing_unique hinv.twin ht htm hem h3 (h1.trans htr.symm) (h2.trans (by rw [htmm]))
       subst this
       have := hpos.1 e he
       simp only [h3, Bool.false_eq_true, if_false, Prod.mk.injEq] at this
       rw [← htmm]; simp [this.1, this.2]
     · obtain ⟨h1, h2, h3⟩ := entryHit_iff.mp hhit
       have hem : e ∈ c.migs := Cluster.migs_of_getElem? hget (Or.inr he)
-      have : e = t := hinv.twin.importing_unique ht htm hem h3 (h1.trans htr.symm) (h2.trans (by rw [htmm]))
+      have : e = t := TwinInv.importing_unique hinv.twin ht htm hem h3 (h1.trans htr.symm) (h2.trans (by rw [htmm]))
       subst this
       have := hpos.2.1 e he
       simp only [h3, Bool.false_eq_true, if_false, Prod.mk.injEq] at this
@@ -174,7 +174,7 @@ theorem twin_position {c : Cluster} (hinv : CommitInv c) {m : MigStore} (hm : m 
     ∃ A dch B t, c.chunks = A ++ dch :: B ∧ A.length = m.mm.dstChunk ∧
       t.isMigrating = false ∧ t.ranges = m.ranges ∧ t.mm = m.mm ∧
       ((m.mm.dstPart = 0 ∧ t ∈ dch.mig0) ∨ (m.mm.dstPart = 1 ∧ t ∈ dch.mig1)) := by
-  obtain ⟨t, ht, htm, htr, htmm⟩ := hinv.twin.exists_twin hm hmig
+  obtain ⟨t, ht, htm, htr, htmm⟩ := TwinInv.exists_twin hinv.twin hm hmig
   obtain ⟨i, ch, hget, he⟩ := Cluster.mem_migs_idx ht
   have hpos := hinv.pos i ch hget
   obtain ⟨hdec, hlen⟩ := getElem?_decomp hget
@@ -301,4 +301,4 @@ theorem commitCore_unknown {s : Store} {name : String} {c : Cluster} (hf : s.fin
     · obtain ⟨h1, h2, h3⟩ := entryHit_iff.mp hhit
       exact hno e (Cluster.migs_of_getElem? hget (Or.inr he)) h3 ⟨h1, h2⟩
 
-end Um.Broker
+end Um.Broker.Scale
